@@ -105,14 +105,23 @@ def make_cases(rng, thorough):
     cases = []
     for it in range(120 if thorough else 8):
         selfo = bool(it % 2 == 0)
-        F = int(rng.integers(1, 4))
+        F = int(rng.integers(1, 4)) if it % 3 == 0 else int(rng.integers(2, 5))      # several frames whenever the box changes
         n1 = int(rng.choice([2, 3, 5, 8, 13, 24, 37]))
         n2 = n1 if selfo else int(rng.choice([1, 4, 9, 20]))
         if not selfo:
             # the cross case in both shapes, in turn: a few sites against many (fewer sites than chunks), and many against a few
             n1, n2 = [(int(rng.choice([2, 3, 5])), int(rng.choice([9, 20, 31]))), (int(rng.choice([13, 24, 37])), int(rng.choice([1, 4])))][(it // 2) % 2]
         L = float(rng.choice([6.0, 10.0, 50.0]))
-        box = np.repeat([[L, L * 1.3, L * 0.9]], F, axis=0)
+        # the box of every frame is its own: constant, breathing isotropically (all frames cubic, different edges - NPT), or
+        # changing shape from frame to frame
+        shape = it % 3
+        grow = 1.0 + 0.15 * np.arange(F).reshape(-1, 1)
+        if shape == 0:
+            box = np.repeat([[L, L * 1.3, L * 0.9]], F, axis=0)
+        elif shape == 1:
+            box = np.repeat([[L, L, L]], F, axis=0) * grow
+        else:
+            box = np.repeat([[L, L * 1.3, L * 0.9]], F, axis=0) * np.hstack([grow, 1.0 / grow, np.ones_like(grow)])
         p1 = rng.uniform(0, 1, (F, n1, 3)) * box[:, None, :]
         p2 = p1 if selfo else rng.uniform(0, 1, (F, n2, 3)) * box[:, None, :]
         nm = int(rng.integers(1, 4))
